@@ -29,6 +29,8 @@
 (*           id (0 = nil)                                                  *)
 (*   res, resLen  the returned slice as message ids (0 = nil), -1/<<>> if  *)
 (*           there is none                                                 *)
+(*   order   (Trace only) the schedule: members in release order, 0 = the  *)
+(*           caller cancels its context; event j produces batch j + 1     *)
 (*   leak    goroutines started by the call that still exist after every   *)
 (*           member has returned and nothing can move any more             *)
 (***************************************************************************)
@@ -138,9 +140,28 @@ DecidedAt(o) ==
                 [] o.strat = "Race"   -> SeenUpTo(o, k) # {}
                 [] OTHER -> FALSE}
   IN IF K = {} THEN 0 ELSE Min(K)
+(* ... and not before.  The text ties the cancellation to the decision    *)
+(* ("cancelled once the outcome is decided"), and a cancellation issued   *)
+(* while only a tolerated number of members has failed makes cancellation-*)
+(* aware members fail, turning an outcome the strategy rule calls a       *)
+(* success into an error.  So a member that saw a cancelled context when  *)
+(* it returned (batch k) must have a reason that was observable before it *)
+(* woke: the caller cancelled (0 in o.order, at or before batch k), or    *)
+(* the members of earlier batches together with the lead of its own batch *)
+(* already decide the outcome.  (One hands the caller's context through:  *)
+(* only the caller's cancel is a reason.)                                 *)
+CallerCancelAt(o) == LET P == {j \in 1..Len(o.order) : o.order[j] = 0} IN IF P = {} THEN 0 ELSE Min(P) + 1
+DecidedBy(o, S) == CASE o.strat \in UpTo   -> o.n > 0 /\ FailsWith(o, Bad(o) \cap S)
+                     [] o.strat = "Fast"   -> S \cap Ok(o) # {}
+                     [] o.strat = "Race"   -> S \cap Came(o) # {}
+                     [] OTHER -> FALSE
+Before(o, k, m) == SeenUpTo(o, k - 1)
+                   \cup (IF o.obs[k].lead # 0 /\ o.obs[k].lead # m THEN {o.obs[k].lead} ELSE {})
 CancelFails(o) ==
-  LET d == DecidedAt(o) IN
+  LET d == DecidedAt(o)  cc == CallerCancelAt(o) IN
   If(d # 0 => \A k \in (d + 1)..Len(o.obs) : \A m \in Range(o.obs[k].all) : o.seen[m], "not-cancelled")
+  \cup If(\A k \in 1..Len(o.obs) : \A m \in Range(o.obs[k].all) :
+            o.seen[m] => (cc # 0 /\ k >= cc) \/ DecidedBy(o, Before(o, k, m)), "cancelled-early")
 
 (* "every goroutine it starts ends once its members return" *)
 LeakFails(o) == If(o.leak = 0, "goroutines-remain")
